@@ -13,10 +13,9 @@ Definition wf (i : input) : bool :=
   wf_prog (i_prog i)
   && forallb (fun co => negb (outcome_eqb (snd co) OSuccess)) (p_handlers (i_prog i)).
 
-Definition hs (i : input) : list handler := handlers (i_prog i).
 (* the exception stands for a failure or an error *)
-Definition is_failure_or_error (h : list handler) (e : exc) : bool :=
-  match outcome_for h e with Some OFail | Some OErr => true | _ => false end.
+Definition is_failure_or_error (p : prog) (e : exc) : bool :=
+  match outcome_of p e with OFail | OErr => true | _ => false end.
 (* outcomes that make a run unsuccessful *)
 Definition unsuccessful (o : outcome) : bool := match o with OFail | OErr | OUx => true | _ => false end.
 
@@ -27,11 +26,11 @@ Definition success_okb (i : input) (k : outcome) : bool :=
   end.
 Definition single_okb (i : input) (k : outcome) : bool :=
   match raised (i_prog i) with
-  | [e] => option_eqb outcome_eqb (Some k) (outcome_for (hs i) e)
+  | [e] => outcome_eqb k (outcome_of (i_prog i) e)
   | _ => true
   end.
 Definition no_downgrade_okb (i : input) (k : outcome) (ok : bool) : bool :=
-  if existsb (is_failure_or_error (hs i)) (raised (i_prog i)) then unsuccessful k && negb ok else true.
+  if existsb (is_failure_or_error (i_prog i)) (raised (i_prog i)) then unsuccessful k && negb ok else true.
 
 Definition spec_okb (i : input) (o : obs) : bool :=
   match o_outs o with
@@ -42,18 +41,15 @@ Definition spec_okb (i : input) (o : obs) : bool :=
 Definition Spec (i : input) (o : obs) : Prop :=
   exists k, o_outs o = [k]
   /\ (k = OSuccess -> raised_by_user (i_prog i) = [] /\ forced (i_prog i) = false)
-  /\ (forall e, raised (i_prog i) = [e] -> outcome_for (hs i) e = Some k)
-  /\ ((exists e, In e (raised (i_prog i)) /\ is_failure_or_error (hs i) e = true) ->
+  /\ (forall e, raised (i_prog i) = [e] -> outcome_of (i_prog i) e = k)
+  /\ ((exists e, In e (raised (i_prog i)) /\ is_failure_or_error (i_prog i) e = true) ->
       unsuccessful k = true /\ o_ok o = false).
 
 (* Known finding F2 ("the last exception wins"): every exception caught is claimed by a handler,
    one of them stands for a failure or error, and the last one stands for a skip or an expected
    failure (directly or through an inserted handler). *)
 Definition finding_F2 (i : input) : bool :=
-  existsb (is_failure_or_error (hs i)) (raised (i_prog i))
-  && forallb (claims (hs i)) (raised (i_prog i))
-  && match outcome_for (hs i) (last (raised (i_prog i)) (Exc CFail None)) with
-     | Some o => negb (unsuccessful o)
-     | None => false
-     end.
+  existsb (is_failure_or_error (i_prog i)) (raised (i_prog i))
+  && forallb (claimed (i_prog i)) (raised (i_prog i))
+  && negb (unsuccessful (outcome_of (i_prog i) (last (raised (i_prog i)) (Exc CFail None)))).
 Definition findings (i : input) : list nat := if finding_F2 i then [2] else [].
